@@ -6,7 +6,7 @@ import (
 
 // Env is the evaluation context of one term at one point.
 type Env struct {
-	X []float64 // values of x_1.. (X[0] is x_1)
+	X []float64 // values of x_1.. (X[0] is x_1); from ZBase on the values of re-activated leaves
 	U float64   // unit roundoff of the scalar type under test (2^-52 or 2^-23)
 	// TieSide selects the choice made where the specification does not choose:
 	// sgn at 0 evaluates to TieSide (-1, 0 or +1, the sub-gradients the library
@@ -25,6 +25,10 @@ type Env struct {
 func NewEnv(x []float64, u float64, side int) *Env {
 	return &Env{X: x, U: u, TieSide: side, Ties: map[string]bool{}, MinAbs: math.Inf(1)}
 }
+
+// ZBase is the index in Env.X at which the values of the re-activated leaves
+// <<"z", i, id>> start: leaf id is X[ZBase+id-1] (x_1.. occupy X[0..n-1], n <= ZBase).
+const ZBase = 8
 
 // Res is a value with a bound on its absolute error (first-order running error
 // analysis with unit roundoff Env.U at every node).
@@ -98,6 +102,14 @@ func (env *Env) Eval(t *Term) Res {
 			r = Res{math.NaN(), 0}
 		} else {
 			r = Res{env.X[t.I-1], 0}
+		}
+	case "z":
+		// value of re-activated leaf number N: stored behind the variables
+		k := ZBase + int(t.N) - 1
+		if k < ZBase || k >= len(env.X) {
+			r = Res{math.NaN(), 0}
+		} else {
+			r = Res{env.X[k], 0}
 		}
 	case "u":
 		r = env.evalUnary(t)
